@@ -249,4 +249,63 @@ def tlsConnect {Cert : Type} (validName : String → Bool) (verify : Cert → St
     if verify cert h.hostname then .established h.hostname else .handshakeError h.hostname
   else .invalidInput
 
+/-! ## Name syntax accepted by the TLS libraries, certificate coverage (driver-side environment) -/
+
+/-- `rustls_pki_types::DnsName` validation (server_name.rs `validate`): the label state machine -/
+inductive DnsSt where
+  | start | next | numOnly (len : Nat) | nextAfterNum | subsequent (len : Nat) | hyphen (len : Nat)
+
+def isAlphaU (c : Char) : Bool := decide (('a' ≤ c ∧ c ≤ 'z') ∨ ('A' ≤ c ∧ c ≤ 'Z') ∨ c = '_')
+
+def dnsStep (st : DnsSt) (c : Char) : Option DnsSt :=
+  match st, c with
+  | .subsequent _, '.' => some .next
+  | .numOnly _, '.' => some .nextAfterNum
+  | _, '.' => none
+  | .start, c | .next, c | .nextAfterNum, c =>
+    if isDigit c then some (.numOnly 1) else if isAlphaU c then some (.subsequent 1) else none
+  | .subsequent len, c | .numOnly len, c | .hyphen len, c =>
+    if 63 ≤ len then none
+    else if c = '-' then some (.hyphen (len + 1))
+    else match st with
+      | .numOnly _ => if isDigit c then some (.numOnly (len + 1)) else if isAlphaU c then some (.subsequent (len + 1)) else none
+      | _ => if isDigit c || isAlphaU c then some (.subsequent (len + 1)) else none
+
+def dnsRun : DnsSt → List Char → Option DnsSt
+  | st, [] => some st
+  | st, c :: t => match dnsStep st c with
+    | some st' => dnsRun st' t
+    | none => none
+
+/-- `DnsName::try_from(&str).is_ok()` -/
+def validDnsName (s : String) : Bool :=
+  if s.length > 253 then false else
+  match dnsRun .start s.toList with
+  | some (.subsequent _) | some .next => true
+  | _ => false
+
+def lowerStr (s : String) : String := String.ofList (s.toList.map Char.toLower)
+
+/-- textbook certificate coverage (RFC 6125): IP SAN for IP literals, else case-insensitive exact
+match or a single left-most wildcard label -/
+def covers (isIp : String → Bool) (names : List String) (host : String) : Bool :=
+  names.any fun n =>
+    if isIp host || isIp n then isIp host && n == host
+    else
+      let n := lowerStr n
+      let h := lowerStr host
+      match n.toList with
+      | '*' :: '.' :: rest =>
+        match splitOnceAt '.' h.toList with
+        | some (label, tail) => !label.isEmpty && tail == rest
+        | none => false
+      | _ => n == h
+where
+  splitOnceAt (c : Char) : List Char → Option (List Char × List Char)
+    | [] => none
+    | x :: t => if x = c then some ([], t) else
+      match splitOnceAt c t with
+      | some (a, b) => some (x :: a, b)
+      | none => none
+
 end ActixNet.Connect
